@@ -1755,7 +1755,7 @@ func (c *dedicatedClusterClient) Close() {
 		p.close <- ErrClosing
 		close(p.close)
 	}
-	if c.wire != nil {
+	if c.wire != nil && !c.mark { // after release the wire may be serving another dedicated client
 		c.wire.Close()
 	}
 	c.mu.Unlock()
